@@ -136,14 +136,14 @@ def cabi_oracle(ck, shapes, model, recs):
     return n_ok
 
 
-def run_e2e(ck, shapes, model, variants_for, tag):
+def run_e2e(ck, shapes, model, variants_for, tag, indirect=None):
     L = getattr(ck, "_llgo", None)
     if L is None:
         L = ck._llgo = e2e.LLGo(ck)
     if not L.ok:
         ck.correspondence_broken("e2e:llgo-build", L.buildlog[-1500:])
         return 0, 0
-    go, c, exp = progs.generate(shapes, variants_for)
+    go, c, exp = progs.generate(shapes, variants_for, indirect=indirect)
     d = os.path.join(ck.work, "prog_" + tag)
     e2e.write_module(d, {"main.go": go, "wrap/wrap.c": c})
     binp = os.path.join(ck.work, "prog_%s.bin" % tag)
@@ -154,7 +154,7 @@ def run_e2e(ck, shapes, model, variants_for, tag):
     rc, so, se = L.run_bin(binp, timeout=300)
     got = {}
     for line in se.splitlines():
-        m = re.match(r"(T \d+ (?:(?:sum|echo) \d+|make|cbarg|cbret)) (.*)$", line)
+        m = re.match(r"(T \d+ (?:(?:sum|echo) \d+|make|cbarg|cbret)|I \d+ (?:fp|cfp|fv)) (.*)$", line)
         if m:
             try:
                 got[m.group(1)] = [int(x) for x in m.group(2).split()]
@@ -171,6 +171,16 @@ def run_e2e(ck, shapes, model, variants_for, tag):
             continue   # lines after a crash: already reported
         nfail += 1
         parts = key.split()
+        if parts[0] == "I":
+            rk, rs, spec = indirect[int(parts[1])]
+            way = {"fp": "C function pointer (plain func type)", "cfp": "C function pointer (llgo:type C)",
+                   "fv": "Go func value holding a C function"}[parts[2]]
+            sig = "(%s) -> %s" % (", ".join(x[0] if len(x) == 1 and x[0] in "idw" else json.dumps(json_shape(x)) for x in spec),
+                                  rk if rs is None or isinstance(rs, str) else json.dumps(json_shape(rs)))
+            ck.violation("indirect-call-value-corrupted-result-" + rk,
+                         "call through %s, signature %s: expected %s, got %s" % (way, sig, want, got.get(key)),
+                         {"test": key, "way": way, "signature": sig, "expected": want, "got": got.get(key)})
+            continue
         k, test = int(parts[1]), parts[2]
         vi = int(parts[3]) if len(parts) > 3 else None
         m = model[k]
@@ -280,7 +290,8 @@ def run(ck):
             return list(range(nv))
         return [0, 1 + k % (nv - 1), 1 + (k * 7 + 3) % (nv - 1)]
 
-    ntests, nfail = run_e2e(ck, shapes, model, variants_for, "a")
+    indirect = progs.indirect_configs(rng, {"quick": 3, "thorough": 10}[ck.tier])
+    ntests, nfail = run_e2e(ck, shapes, model, variants_for, "a", indirect=indirect)
     ck.phase("e2e")
     ncstr = run_cstr(ck, rng) if getattr(ck, "_llgo", None) is not None and ck._llgo.ok else 0
     ck.phase("cstr")
@@ -289,11 +300,13 @@ def run(ck):
         kind = {0: "keep", 2: "memory", 3: "one-eightbyte", 4: "two-eightbytes"}.get(m["code"][0], "?")
         classes[kind + ("" if m["flat_equiv"] else ":nested-tail-padding")] += 1
     ck.add_cov(evaluations=ntests + n_gti + ncstr, cstr_cases=ncstr, nontrivial=len(shapes), classes=dict(classes),
-               e2e={"tests": ntests, "failed_known_or_not": nfail, "variants": [list(v) for v in progs.VARIANTS]},
+               e2e={"tests": ntests, "failed_known_or_not": nfail, "indirect_signatures": len(indirect), "indirect_calls": 3 * len(indirect), "variants": [list(v) for v in progs.VARIANTS]},
                samples=[{"shape": json_shape(shapes[i]), "model": model[i]} for i in (20, 30, 58)])
     ck.cov["rule"] = ("boundary shapes (every psABI class combination of one and two eightbytes, 9/12/16/17-byte arrays, >16 bytes, nested "
                       "structs with and without tail padding) + random C-compatible trees (1-12 fields, depth<=2, arrays 1-4, 1-80 bytes); "
                       "each shape: real GetTypeInfo in-process vs the Coq model and vs the psABI classification, and an llgo-compiled "
                       "program passing it by value to clang-compiled C (argument behind 0-11 scalar arguments in 9 register-pressure "
-                      "variants, result, C-made result, C->Go callback argument and result), every leaf echoed and compared")
+                      "variants, result, C-made result, C->Go callback argument and result), every leaf echoed and compared; plus indirect calls "
+                      "(C function pointer as plain func type, as llgo:type C type, Go func value holding a C function) for every result class "
+                      "(void, int64, double, one-eightbyte, two-eightbyte, sret) x by-value arguments of every class in 7 position layouts")
     return ck.finish()
